@@ -127,6 +127,17 @@ func runC10(c core.Case) core.Result {
 	case "random":
 		r := rand.New(rand.NewSource(c.Seed))
 		ls := genLayout(r, c.Str("keys", "hostile"), 12, 30)
+		// versions moved up as a whole: around 2^32, across 2^63 (Version is an int64 and turns
+		// negative there, the key suffix does not), just below MaxUint64
+		tsBase := []uint64{0, 1<<32 - 4, 1<<63 - 3, ^uint64(0) - 1000}[c.Int("tsbase", 0)]
+		for _, f := range ls.Flushes {
+			for i := range f {
+				f[i].Ts += tsBase
+			}
+		}
+		if tsBase != 0 {
+			res.AddObs(fmt.Sprintf("layouts_versions_from_%d", tsBase), 1)
+		}
 		dir := filepath.Join(base, c.ID)
 		mustMkdir(dir)
 		defer os.RemoveAll(dir)
@@ -233,6 +244,9 @@ func genC10(tier string, seed int64) []core.Case {
 		if i < 2 {
 			c.N["sample"] = 1
 		}
+		if i%6 == 3 {
+			c.N["tsbase"] = int64(1 + (i/6)%3)
+		}
 		cs = append(cs, c)
 	}
 	return cs
@@ -241,7 +255,7 @@ func genC10(tier string, seed int64) []core.Case {
 func init() {
 	core.Register(&core.Check{
 		Prop: "C10", Level: "exploration",
-		Rule: "universe cases: 243 layouts each of the 3^9 ways to place 9 entries (keys a, a@, b x versions 1..3, one tombstone) absent/in table 1/in table 2, block size 1 (one entry per block) or 4096, all 5 keys x 6 timestamps queried on fresh handles and on handles rebuilt from the files (thorough = the whole space, quick = a seeded 1/8 slice); random cases: 2-12 flushes over hostile/windowed/long/binary keys, moved down the levels by compactions, all keys + 25 absent keys x all interesting timestamps; oracle = brute-force newest version <= ts; non-trivial = a key with versions in >=2 tables and a multi-block table (random) / both tables populated (universe); distinct by layout hash",
+		Rule: "universe cases: 243 layouts each of the 3^9 ways to place 9 entries (keys a, a@, b x versions 1..3, one tombstone) absent/in table 1/in table 2, block size 1 (one entry per block) or 4096, all 5 keys x 6 timestamps queried on fresh handles and on handles rebuilt from the files (thorough = the whole space, quick = a seeded 1/8 slice); random cases: 2-12 flushes over hostile/windowed/long/binary keys, moved down the levels by compactions, in every sixth case with all versions moved up to around 2^32, across 2^63 or just below MaxUint64, all keys + 25 absent keys x all interesting timestamps; oracle = brute-force newest version <= ts; non-trivial = a key with versions in >=2 tables and a multi-block table (random) / both tables populated (universe); distinct by layout hash",
 		Gen:  genC10, Run: runC10, BatchSize: 6, GoMaxProcs: 1, Parallel: 8,
 		MinNonTrivial: map[string]int{"quick": 40, "thorough": 1500},
 		Exhaustive:    func(tier string) bool { return false },
